@@ -72,6 +72,12 @@ def check_trace(case, tr):
             flags['late_attach'] += 1
         if s.kind == 'attach' and case.get('attach_later'):
             flags['attached_after_decoration'] = flags.get('attached_after_decoration', 0) + 1
+            if s.result is False:
+                out.append(Discrepancy('C07/attach/archive-not-attached', 'step %d: f.archive(%s handle) returned normally but f.archived() is False: nothing that leaves memory from now on reaches the archive' % (
+                    i, 'cached' if case.get('attach_cached') else 'bare')))
+                return out, ev, flags
+            if case.get('attach_cached'):
+                flags['attached_cached_handle'] = flags.get('attached_cached_handle', 0) + 1
         if s.kind == 'reattach' and s.result == 'reattached':
             # another archive is attached now: what only the previous one held is no longer 'in the archive'
             flags['archive_replaced'] = flags.get('archive_replaced', 0) + 1
@@ -235,6 +241,6 @@ def extra_passes(run, tier, shard, nshards):
     exhaustive_sweep(run, tier, shard, nshards, lambda case, tr: check_trace(case, tr)[0])
 
 
-REQUIRED_CLASSES = ['archive_replaced', 'archive_entry_deleted_externally', 'relative_dir_archive:new', 'chdir_away', 'archive_refused_victim', 'attached_after_decoration', 'evicted_to_archive', 'purged_to_archive', 'victim_was_loaded', 'late_attach',
+REQUIRED_CLASSES = ['attached_cached_handle', 'archive_replaced', 'archive_entry_deleted_externally', 'relative_dir_archive:new', 'chdir_away', 'archive_refused_victim', 'attached_after_decoration', 'evicted_to_archive', 'purged_to_archive', 'victim_was_loaded', 'late_attach',
                     'eff_algo:lfu', 'eff_algo:mru', 'eff_algo:rr', 'eff_algo:no', 'module:safe']
 TRIGGERS = {}
